@@ -315,7 +315,7 @@ def run(ctx):
     hists = load_corpus()
     ncorpus = len(hists)
     dist = {}
-    N = 3000 if quick else 40000
+    N = 3000 if quick else 150000
     for i in range(N):
         h, kinds = gen_history(r, 60 if i % 10 else 120)
         hists.append(h)
@@ -332,8 +332,17 @@ def run(ctx):
     check_histories(ctx, "reg", hists, impl, model)
     if not quick:
         impl2 = pv.build_harness("asan", "reg_drv")
-        sub = hists[:: max(1, len(hists) // 8000)]
+        sub = hists[:: max(1, len(hists) // 30000)]
         check_histories(ctx, "reg-asan", sub, impl2, model, impl_env={"ASAN_OPTIONS": "detect_leaks=1"})
+    if not quick and res["ok"]:
+        # independent re-check of the compiled theorems by the stand-alone checker
+        rc, out = pv.sh("timeout 1200 coqchk -silent -o -Q . PV PV.Props.Properties_C16", cwd=pv.COQ, timeout=1300)
+        okchk = rc == 0 and "Axioms: <none>" in out
+        ctx.cov["coqchk"] = {"cmd": "coqchk -silent -o -Q . PV PV.Props.Properties_C16", "rc": rc,
+                             "axioms": "none" if okchk else out[-600:]}
+        if not okchk:
+            ctx.violation("coqchk", {"kind": "proof-obligation", "no_longer_checks": ["coqchk PV.Props.Properties_C16"],
+                                     "build_log_tail": out[-3000:]}, False, "coqchk rejects Properties_C16.vo or reports axioms")
     ctx.add_samples([" ; ".join(h[:14]) + " ; ..." for h in hists[ncorpus:ncorpus + 3]])
     ctx.cov["exhaustive"] = False
     ctx.assumptions += [
